@@ -2,167 +2,258 @@
   C19 — strategies run by BacktestManager do not influence one another.
 
   `Manager.runSeq` / `runPool` / `runPoolArgs` / `managerRun` mirror the data flow of demeter/core/backtest.py; a
-  strategy is an arbitrary transformer `Strat M D O` of the market objects and the data frames it is handed — including
-  strategies that write into those frames.  The theorems hold for every list of such strategies, every number of threads
-  and every assignment of tasks to worker processes.
+  strategy is an arbitrary transformer `Strat M C V N P O` of everything it is handed — the market objects, and the
+  data layer by layer: frame columns, frame values, the Python objects nested inside cells (order-book lists, which no
+  DataFrame copy duplicates), the price frame — including strategies that write into all of them.  The theorems hold
+  for every list of such strategies, every number of threads and every assignment of tasks to worker processes.
 
-  The code now (a) deep-copies the configured markets and (b) hands each backtest a shallow copy of the shared frames.
-  Under pandas copy-on-write (always on from pandas 3, the installed version) nothing a strategy does reaches another
-  one: `C19_manager_isolated` is the full statement.  For pandas 2 without copy-on-write the statement needs the
-  hypothesis that no strategy overwrites frame values in place (`C19_manager_isolated_no_cow_partial`), and
-  `C19_fails_without_cow_when_data_is_overwritten` is the witness that it is needed.
+  `C19_manager_isolated_of_safe` states, per layer, which copy the code must make (or else what strategies must not
+  do); the source flags regenerated on every run (`Mode.current`) satisfy all of them under pandas copy-on-write
+  (always on from pandas 3, the installed version): `C19_manager_isolated` is the full statement.  For pandas 2
+  without copy-on-write the statement needs the hypothesis that no strategy overwrites frame values in place
+  (`C19_manager_isolated_no_cow_partial`), and `C19_fails_without_cow_when_data_is_overwritten` is the witness that it
+  is needed.  Each copy is shown to be needed by a witness (`C19_fails_when_…`): the four repaired defects (markets
+  shared; markets copied one by one; frame shared; nested cells shared) and the two seeded regressions
+  (`get_new_order_list` without deep copy; `set_price` adopting all-Decimal frames).
 -/
 import Demeter.Manager
-import Mathlib.Tactic.Linarith
 namespace Demeter
 open Manager
 
-variable {M D O : Type}
+variable {M C V N P O : Type}
 
-/-- every strategy of the list leaves the data frames it is handed unchanged -/
-def Manager.DataIntact (strats : List (Strat M D O)) : Prop :=
-  ∀ s ∈ strats, ∀ m d, (s.run m d).2.1 = d
+/-! ### what a strategy list may do to each layer when that layer is *not* a private copy -/
 
-theorem Manager.DataIntact.tail {s : Strat M D O} {rest : List (Strat M D O)} (h : DataIntact (s :: rest)) :
-    DataIntact rest := fun t ht => h t (List.mem_cons_of_mem _ ht)
+/-- no strategy leaves anything in the market objects -/
+def Manager.MktsIntact (strats : List (Strat M C V N P O)) : Prop := ∀ s ∈ strats, ∀ m d, (s.run m d).1 = m
+/-- no strategy adds a column to a frame -/
+def Manager.ColsIntact (strats : List (Strat M C V N P O)) : Prop := ∀ s ∈ strats, ∀ m d, (s.run m d).2.1.cols = d.cols
+/-- no strategy overwrites frame values in place -/
+def Manager.ValsIntact (strats : List (Strat M C V N P O)) : Prop := ∀ s ∈ strats, ∀ m d, (s.run m d).2.1.vals = d.vals
+/-- no strategy writes into the objects nested in cells itself -/
+def Manager.CellsIntact (strats : List (Strat M C V N P O)) : Prop := ∀ s ∈ strats, ∀ m d, (s.run m d).2.1.cells = d.cells
+/-- no strategy trades against an order book -/
+def Manager.FillsNone (strats : List (Strat M C V N P O)) : Prop := ∀ s ∈ strats, ∀ m d n, s.fills m d n = n
+/-- no strategy (nor its Actuator) writes into the price frame it holds -/
+def Manager.PricesIntact (strats : List (Strat M C V N P O)) : Prop := ∀ s ∈ strats, ∀ m d, (s.run m d).2.1.prices = d.prices
 
-/-- the shared frames survive a backtest: by copy-on-write through the view, or because the strategy does not write -/
-def Manager.DataSafe (md : Mode) (strats : List (Strat M D O)) : Prop :=
-  (md.dataView = true ∧ md.cow = true) ∨ DataIntact strats
+/-- the shared data `d` survives every backtest of the list: layer by layer, either the code hands out a private copy
+    of that layer or no strategy writes into it -/
+structure Manager.DataSafe (env : Env M P) (md : Mode) (d : Data C V N P) (strats : List (Strat M C V N P O)) : Prop where
+  cols : md.dataView = true ∨ ColsIntact strats
+  vals : (md.dataView = true ∧ md.cow = true) ∨ ValsIntact strats
+  cells : md.cellsCopied = true ∨ (CellsIntact strats ∧ (md.orderListCopied = true ∨ FillsNone strats))
+  prices : md.prices.adopts (env.isDec d.prices) = false ∨ PricesIntact strats
 
-theorem Manager.DataSafe.tail {md : Mode} {s : Strat M D O} {rest : List (Strat M D O)} (h : DataSafe md (s :: rest)) :
-    DataSafe md rest := by
-  rcases h with h | h
+/-- the configured markets survive every backtest and every backtest is attached to markets equal to the configured
+    ones: copied as a whole; or copied one by one when no market refers to another; or not copied when no strategy
+    leaves anything in them -/
+def Manager.MarketsSafe (env : Env M P) (md : Mode) (cfg : M) (strats : List (Strat M C V N P O)) : Prop :=
+  md.markets = .whole ∨ (md.markets = .each ∧ env.sever cfg = cfg) ∨ (md.markets = .none ∧ MktsIntact strats)
+
+/-- every backtest is attached to markets equal to the configured ones (enough when the configuration is pickled per task) -/
+def Manager.AttachSafe (env : Env M P) (md : Mode) (cfg : M) : Prop := md.markets ≠ .each ∨ env.sever cfg = cfg
+
+section tails
+variable {env : Env M P} {md : Mode} {d : Data C V N P} {cfg : M} {s : Strat M C V N P O} {rest : List (Strat M C V N P O)}
+
+theorem Manager.DataSafe.tail (h : DataSafe env md d (s :: rest)) : DataSafe env md d rest where
+  cols := h.cols.imp id (fun g t ht => g t (List.mem_cons_of_mem _ ht))
+  vals := h.vals.imp id (fun g t ht => g t (List.mem_cons_of_mem _ ht))
+  cells := h.cells.imp id (fun g => ⟨fun t ht => g.1 t (List.mem_cons_of_mem _ ht),
+    g.2.imp id (fun g2 t ht => g2 t (List.mem_cons_of_mem _ ht))⟩)
+  prices := h.prices.imp id (fun g t ht => g t (List.mem_cons_of_mem _ ht))
+
+theorem Manager.MarketsSafe.tail (h : MarketsSafe env md cfg (s :: rest)) : MarketsSafe env md cfg rest := by
+  rcases h with h | h | ⟨h1, h2⟩
   · exact Or.inl h
-  · exact Or.inr h.tail
+  · exact Or.inr (Or.inl h)
+  · exact Or.inr (Or.inr ⟨h1, fun t ht => h2 t (List.mem_cons_of_mem _ ht)⟩)
 
-theorem Manager.start_data {md : Mode} {s : Strat M D O} {rest : List (Strat M D O)} (h : DataSafe md (s :: rest))
-    (cfg : M) (d : D) : (start md s cfg d).2.1 = d := by
-  rcases h with ⟨h1, h2⟩ | h
-  · simp [start, h1, h2]
-  · have := h s List.mem_cons_self cfg d
-    simp only [start]
-    split
-    · rfl
-    · exact this
+theorem Manager.MarketsSafe.attach (h : MarketsSafe env md cfg (s :: rest)) : AttachSafe env md cfg := by
+  rcases h with h | ⟨_, h⟩ | ⟨h, _⟩
+  · left; rw [h]; decide
+  · right; exact h
+  · left; rw [h]; decide
 
-/-- what the source says on this run: `_start` attaches `copy.deepcopy(market)` and a `.copy(…)` of the data frame, and
-    `run()` takes the in-process path iff there is one strategy or one thread (the dispatch `managerRun` models) -/
+theorem Manager.attached_eq (h : AttachSafe env md cfg) : attached env md cfg = cfg := by
+  unfold attached
+  rcases h with h | h
+  · cases hm : md.markets <;> simp_all
+  · cases hm : md.markets <;> simp [h]
+
+/-- a backtest leaves the shared data as it found it -/
+theorem Manager.start_data (h : DataSafe env md d (s :: rest)) (cfg : M) : (start env md s cfg d).2.1 = d := by
+  have hs : s ∈ s :: rest := List.mem_cons_self
+  obtain ⟨c, v, n, p⟩ := d
+  simp only [start, Data.mk.injEq]
+  refine ⟨?_, ?_, ?_, ?_⟩
+  · rcases h.cols with g | g
+    · simp [g]
+    · have := g s hs (attached env md cfg) ⟨c, v, n, p⟩
+      split <;> simp_all
+  · rcases h.vals with ⟨g1, g2⟩ | g
+    · simp [g1, g2]
+    · have := g s hs (attached env md cfg) ⟨c, v, n, p⟩
+      split <;> simp_all
+  · rcases h.cells with g | ⟨g1, g2⟩
+    · simp [g]
+    · have e1 := g1 s hs (attached env md cfg) ⟨c, v, n, p⟩
+      split
+      · rfl
+      · rcases g2 with g2 | g2
+        · simp [g2]; exact e1
+        · split
+          · exact e1
+          · rw [g2 s hs]; exact e1
+  · rcases h.prices with g | g
+    · simp only at g; simp [g]
+    · have := g s hs (attached env md cfg) ⟨c, v, n, p⟩
+      split <;> simp_all
+
+/-- a backtest leaves the configured markets as it found them -/
+theorem Manager.start_markets (h : MarketsSafe env md cfg (s :: rest)) (d : Data C V N P) : (start env md s cfg d).1 = cfg := by
+  rcases h with h | ⟨h, _⟩ | ⟨h1, h2⟩
+  · simp [start, h]
+  · simp [start, h]
+  · have := h2 s List.mem_cons_self cfg d
+    simp [start, h1, attached, this]
+
+/-- its observation is the one of a plain run on the configured markets -/
+theorem Manager.start_obs (h : AttachSafe env md cfg) (d : Data C V N P) : (start env md s cfg d).2.2 = (s.run cfg d).2.2 := by
+  simp only [start, attached_eq h]
+
+end tails
+
+/-- what the source says on this run: `_start` attaches the markets of `copy.deepcopy(config.markets)` (2), hands out a
+    `.copy` of each data frame and deep-copies the objects nested in its cells; `get_new_order_list` decrements a deep
+    copy; `Actuator.set_price` always keeps a frame of its own (0); and `run()` takes the in-process path iff there is
+    one strategy or one thread (the dispatch `managerRun` models) -/
 theorem C19_current_code_pinned :
-    Mode.current true = ⟨true, true, true⟩ ∧ Gen.managerCopiesMarkets = true ∧ Gen.managerDataView = true ∧
+    (∀ cow, Mode.current cow = ⟨.whole, true, cow, true, true, .always⟩) ∧
+    Gen.managerMarketsCopy = 2 ∧ Gen.managerDataView = true ∧ Gen.managerCellsCopied = true ∧
+    Gen.deribitOrderListDeepCopied = true ∧ Gen.actuatorPriceCopy = 0 ∧
     Gen.managerSeqIfOneStrategyOrOneThread = true := by
   decide
 
-/-- **sequential path (threads = 1 or a single strategy)**: with the markets copied and the shared frames safe, every
+/-- **sequential path (threads = 1 or a single strategy)**: with the markets safe and the shared data safe, every
     strategy's observation is the one it produces alone on the fresh configuration -/
-theorem C19_sequential_isolated (md : Mode) (hm : md.marketsCopied = true) (cfg : M) (d : D)
-    (strats : List (Strat M D O)) (hd : DataSafe md strats) :
-    runSeq md cfg d strats = spec cfg d strats := by
+theorem C19_sequential_isolated (env : Env M P) (md : Mode) (cfg : M) (d : Data C V N P)
+    (strats : List (Strat M C V N P O)) (hm : MarketsSafe env md cfg strats) (hd : DataSafe env md d strats) :
+    runSeq env md cfg d strats = spec cfg d strats := by
   induction strats with
   | nil => rfl
   | cons s rest ih =>
-    have h1 := start_data hd cfg d
-    have h2 : (start md s cfg d).1 = cfg := by simp [start, hm]
-    have h3 : (start md s cfg d).2.2 = (s.run cfg d).2.2 := rfl
-    simp only [runSeq, spec, List.map_cons, h1, h2, h3]
+    simp only [runSeq, spec, List.map_cons, start_data hd cfg, start_markets hm d, start_obs hm.attach d]
     congr 1
-    exact ih hd.tail
+    exact ih hm.tail hd.tail
 
 /-- **pooled path (threads > 1, fork)**: for *every* assignment of tasks to worker processes — and whether or not
     `_start` copies the markets, since each task unpickles its own configuration — every observation is the solo one -/
-theorem C19_pooled_isolated (md : Mode) (cfg : M) (d : D) (assign : Nat → Nat) (strats : List (Strat M D O))
-    (hd : DataSafe md strats) (i0 : Nat) (w : Nat → D) (hw : ∀ k, w k = d) :
-    runPool md cfg assign w i0 strats = spec cfg d strats := by
+theorem C19_pooled_isolated (env : Env M P) (md : Mode) (cfg : M) (d : Data C V N P) (assign : Nat → Nat)
+    (strats : List (Strat M C V N P O)) (hm : AttachSafe env md cfg) (hd : DataSafe env md d strats)
+    (i0 : Nat) (w : Nat → Data C V N P) (hw : ∀ k, w k = d) :
+    runPool env md cfg assign w i0 strats = spec cfg d strats := by
   induction strats generalizing w i0 with
   | nil => rfl
   | cons s rest ih =>
-    have h1 := start_data hd cfg d
-    have h3 : (start md s cfg d).2.2 = (s.run cfg d).2.2 := rfl
-    simp only [runPool, spec, List.map_cons, hw]
+    simp only [runPool, spec, List.map_cons, hw, start_obs hm d]
     congr 1
     apply ih hd.tail
     intro k
     split
-    · exact h1
+    · exact start_data hd cfg
     · rfl
 
-/-- **pooled path on Windows** (data pickled per task): isolated whatever the strategies do to their data, in every mode -/
-theorem C19_windows_pool_isolated (md : Mode) (cfg : M) (d : D) (strats : List (Strat M D O)) :
-    runPoolArgs md cfg d strats = spec cfg d strats := rfl
+/-- **pooled path on Windows** (data pickled per task): isolated whatever the strategies do to their data -/
+theorem C19_windows_pool_isolated (env : Env M P) (md : Mode) (cfg : M) (d : Data C V N P)
+    (strats : List (Strat M C V N P O)) (hm : AttachSafe env md cfg) :
+    runPoolArgs env md cfg d strats = spec cfg d strats := by
+  simp only [runPoolArgs, spec, start_obs hm d]
 
-/-- **`BacktestManager.run()`, full statement** (pandas copy-on-write): whatever the strategies do — to the markets and
-    to the data frames — whatever the number of threads, the cpu count, the platform and the scheduling, if the call
-    completes its observations are those of the strategies run alone, in the order of the strategy list -/
-theorem C19_manager_isolated (threads cpu : Nat) (windows ctxSet : Bool) (assign : Nat → Nat) (cfg : M) (d : D)
-    (strats : List (Strat M D O)) (obs : List O)
-    (h : managerRun (Mode.current true) threads cpu windows ctxSet assign (some cfg) (some d) strats = .done obs) :
-    obs = spec cfg d strats := by
-  rw [C19_current_code_pinned.1] at h
-  have hd : DataSafe (⟨true, true, true⟩ : Mode) strats := Or.inl ⟨rfl, rfl⟩
+/-- the branches of `run()` that complete -/
+theorem Manager.managerRun_done {env : Env M P} {md : Mode} {threads cpu : Nat} {windows ctxSet : Bool} {assign : Nat → Nat}
+    {cfg : M} {d : Data C V N P} {strats : List (Strat M C V N P O)} {obs : List O}
+    (h : managerRun env md threads cpu windows ctxSet assign (some cfg) (some d) strats = .done obs) :
+    (strats = [] ∧ obs = []) ∨ obs = runSeq env md cfg d strats ∨ obs = runPoolArgs env md cfg d strats ∨
+    obs = runPool env md cfg assign (fun _ => d) 0 strats := by
   unfold managerRun at h
   simp only at h
   split at h
   · rename_i hlen
     have : strats = [] := List.length_eq_zero_iff.mp (by omega)
-    subst this
     simp only [Outcome.done.injEq] at h
-    rw [← h]; rfl
+    exact Or.inl ⟨this, h.symm⟩
   · split at h
     · simp only [Outcome.done.injEq] at h
-      rw [← h]; exact C19_sequential_isolated _ rfl cfg d strats hd
+      exact Or.inr (Or.inl h.symm)
     · split at h
       · exact absurd h (by simp)
       · split at h
         · split at h
           · exact absurd h (by simp)
           · simp only [Outcome.done.injEq] at h
-            rw [← h]; rfl
+            exact Or.inr (Or.inr (Or.inl h.symm))
         · split at h
           · exact absurd h (by simp)
           · split at h
             · exact absurd h (by simp)
             · simp only [Outcome.done.injEq] at h
-              rw [← h]; exact C19_pooled_isolated _ cfg d assign strats hd 0 _ (fun _ => rfl)
+              exact Or.inr (Or.inr (Or.inr h.symm))
+
+/-- **`BacktestManager.run()` for any combination of copies**: the hypotheses say exactly which copies are needed —
+    per layer, a private copy or strategies that do not write into that layer.  Every thread count, cpu count,
+    platform and scheduling. -/
+theorem C19_manager_isolated_of_safe (env : Env M P) (md : Mode) (threads cpu : Nat) (windows ctxSet : Bool)
+    (assign : Nat → Nat) (cfg : M) (d : Data C V N P) (strats : List (Strat M C V N P O))
+    (hm : MarketsSafe env md cfg strats) (hd : DataSafe env md d strats) (obs : List O)
+    (h : managerRun env md threads cpu windows ctxSet assign (some cfg) (some d) strats = .done obs) :
+    obs = spec cfg d strats := by
+  have ha : strats ≠ [] → AttachSafe env md cfg := by
+    intro hne
+    cases strats with
+    | nil => exact absurd rfl hne
+    | cons s rest => exact hm.attach
+  rcases managerRun_done h with ⟨h1, h2⟩ | h1 | h1 | h1
+  · subst h1; subst h2; rfl
+  · rw [h1]; exact C19_sequential_isolated env md cfg d strats hm hd
+  · rw [h1]
+    cases strats with
+    | nil => rfl
+    | cons s rest => exact C19_windows_pool_isolated env md cfg d _ (ha (by simp))
+  · rw [h1]
+    cases strats with
+    | nil => rfl
+    | cons s rest => exact C19_pooled_isolated env md cfg d assign _ (ha (by simp)) hd 0 _ (fun _ => rfl)
+
+/-- **`BacktestManager.run()`, full statement** (pandas copy-on-write): whatever the strategies do — to the markets, to
+    the columns, values and nested lists of the data frames, to the price frame — whatever references the markets hold
+    to each other, whatever the price frame's cell type, the number of threads, the cpu count, the platform and the
+    scheduling: if the call completes, its observations are those of the strategies run alone, in the order of the
+    strategy list -/
+theorem C19_manager_isolated (env : Env M P) (threads cpu : Nat) (windows ctxSet : Bool) (assign : Nat → Nat) (cfg : M)
+    (d : Data C V N P) (strats : List (Strat M C V N P O)) (obs : List O)
+    (h : managerRun env (Mode.current true) threads cpu windows ctxSet assign (some cfg) (some d) strats = .done obs) :
+    obs = spec cfg d strats := by
+  rw [C19_current_code_pinned.1] at h
+  exact C19_manager_isolated_of_safe env _ threads cpu windows ctxSet assign cfg d strats (Or.inl rfl)
+    ⟨Or.inl rfl, Or.inl ⟨rfl, rfl⟩, Or.inl rfl, Or.inl rfl⟩ obs h
 
 /-- the same without copy-on-write (pandas 2 default): holds for strategies that do not overwrite the frames' values
     in place.  Partial: the unrestricted statement is false there, see `C19_fails_without_cow_when_data_is_overwritten`. -/
-theorem C19_manager_isolated_no_cow_partial (threads cpu : Nat) (windows ctxSet : Bool) (assign : Nat → Nat) (cfg : M) (d : D)
-    (strats : List (Strat M D O)) (hd : DataIntact strats) (obs : List O)
-    (h : managerRun (Mode.current false) threads cpu windows ctxSet assign (some cfg) (some d) strats = .done obs) :
+theorem C19_manager_isolated_no_cow_partial (env : Env M P) (threads cpu : Nat) (windows ctxSet : Bool) (assign : Nat → Nat)
+    (cfg : M) (d : Data C V N P) (strats : List (Strat M C V N P O)) (hv : ValsIntact strats) (obs : List O)
+    (h : managerRun env (Mode.current false) threads cpu windows ctxSet assign (some cfg) (some d) strats = .done obs) :
     obs = spec cfg d strats := by
-  have hcur : Mode.current false = ⟨true, true, false⟩ := by decide
-  rw [hcur] at h
-  have hd' : DataSafe (⟨true, true, false⟩ : Mode) strats := Or.inr hd
-  unfold managerRun at h
-  simp only at h
-  split at h
-  · rename_i hlen
-    have : strats = [] := List.length_eq_zero_iff.mp (by omega)
-    subst this
-    simp only [Outcome.done.injEq] at h
-    rw [← h]; rfl
-  · split at h
-    · simp only [Outcome.done.injEq] at h
-      rw [← h]; exact C19_sequential_isolated _ rfl cfg d strats hd'
-    · split at h
-      · exact absurd h (by simp)
-      · split at h
-        · split at h
-          · exact absurd h (by simp)
-          · simp only [Outcome.done.injEq] at h
-            rw [← h]; rfl
-        · split at h
-          · exact absurd h (by simp)
-          · split at h
-            · exact absurd h (by simp)
-            · simp only [Outcome.done.injEq] at h
-              rw [← h]; exact C19_pooled_isolated _ cfg d assign strats hd' 0 _ (fun _ => rfl)
+  rw [C19_current_code_pinned.1] at h
+  exact C19_manager_isolated_of_safe env _ threads cpu windows ctxSet assign cfg d strats (Or.inl rfl)
+    ⟨Or.inl rfl, Or.inr hv, Or.inl rfl, Or.inl rfl⟩ obs h
 
 /-- the run does complete in the supported configurations: at least one thread, not more threads than cpus, no start
     method fixed earlier in the process -/
-theorem C19_manager_completes (md : Mode) (threads cpu : Nat) (windows : Bool) (assign : Nat → Nat) (cfg : M) (d : D)
-    (strats : List (Strat M D O)) (ht : 1 ≤ threads) (hc : threads ≤ cpu) :
-    ∃ obs, managerRun md threads cpu windows false assign (some cfg) (some d) strats = .done obs := by
+theorem C19_manager_completes (env : Env M P) (md : Mode) (threads cpu : Nat) (windows : Bool) (assign : Nat → Nat) (cfg : M)
+    (d : Data C V N P) (strats : List (Strat M C V N P O)) (ht : 1 ≤ threads) (hc : threads ≤ cpu) :
+    ∃ obs, managerRun env md threads cpu windows false assign (some cfg) (some d) strats = .done obs := by
   unfold managerRun
   simp only
   split
@@ -178,74 +269,180 @@ theorem C19_manager_completes (md : Mode) (threads cpu : Nat) (windows : Bool) (
 
 /-- **each strategy separately**: the `i`-th observation depends on the `i`-th strategy only — not on the other
     strategies, their number, their order, the thread count, the platform or the scheduling -/
-theorem C19_each_strategy_as_alone (threads cpu : Nat) (windows ctxSet : Bool) (assign : Nat → Nat) (cfg : M) (d : D)
-    (strats : List (Strat M D O)) (obs : List O)
-    (h : managerRun (Mode.current true) threads cpu windows ctxSet assign (some cfg) (some d) strats = .done obs)
+theorem C19_each_strategy_as_alone (env : Env M P) (threads cpu : Nat) (windows ctxSet : Bool) (assign : Nat → Nat) (cfg : M)
+    (d : Data C V N P) (strats : List (Strat M C V N P O)) (obs : List O)
+    (h : managerRun env (Mode.current true) threads cpu windows ctxSet assign (some cfg) (some d) strats = .done obs)
     (i : Nat) (hi : i < strats.length) :
     obs[i]? = some ((strats[i].run cfg d).2.2) := by
-  rw [C19_manager_isolated threads cpu windows ctxSet assign cfg d strats obs h]
+  rw [C19_manager_isolated env threads cpu windows ctxSet assign cfg d strats obs h]
   simp [spec, hi]
 
 /-- **order and thread count are immaterial**: two runs of the same strategies in different orders, with different
     thread counts, platforms and schedules, report the same observations up to that reordering -/
-theorem C19_order_and_threads_immaterial (t1 t2 cpu1 cpu2 : Nat) (w1 w2 c1 c2 : Bool) (as1 as2 : Nat → Nat) (cfg : M) (d : D)
-    (s1 s2 : List (Strat M D O)) (hperm : s1.Perm s2) (o1 o2 : List O)
-    (h1 : managerRun (Mode.current true) t1 cpu1 w1 c1 as1 (some cfg) (some d) s1 = .done o1)
-    (h2 : managerRun (Mode.current true) t2 cpu2 w2 c2 as2 (some cfg) (some d) s2 = .done o2) :
+theorem C19_order_and_threads_immaterial (env : Env M P) (t1 t2 cpu1 cpu2 : Nat) (w1 w2 c1 c2 : Bool) (as1 as2 : Nat → Nat)
+    (cfg : M) (d : Data C V N P) (s1 s2 : List (Strat M C V N P O)) (hperm : s1.Perm s2) (o1 o2 : List O)
+    (h1 : managerRun env (Mode.current true) t1 cpu1 w1 c1 as1 (some cfg) (some d) s1 = .done o1)
+    (h2 : managerRun env (Mode.current true) t2 cpu2 w2 c2 as2 (some cfg) (some d) s2 = .done o2) :
     o1.Perm o2 := by
-  rw [C19_manager_isolated t1 cpu1 w1 c1 as1 cfg d s1 o1 h1, C19_manager_isolated t2 cpu2 w2 c2 as2 cfg d s2 o2 h2]
+  rw [C19_manager_isolated env t1 cpu1 w1 c1 as1 cfg d s1 o1 h1, C19_manager_isolated env t2 cpu2 w2 c2 as2 cfg d s2 o2 h2]
   exact hperm.map _
 
-/-! ### the defects that were repaired, on their witnesses -/
+/-- **which copies carry which layer** (the current code makes more than one of them): once `_start` deep-copies the
+    objects nested in cells, isolation no longer depends on `get_new_order_list` copying its argument; and a
+    `set_price` that skips the conversion for Decimal frames is harmless for frames that are not all-Decimal -/
+theorem C19_cells_copy_covers_order_lists (env : Env M P) (olc : Bool) (pc : PriceCopy) (threads cpu : Nat)
+    (windows ctxSet : Bool) (assign : Nat → Nat) (cfg : M) (d : Data C V N P) (strats : List (Strat M C V N P O))
+    (hp : pc.adopts (env.isDec d.prices) = false) (obs : List O)
+    (h : managerRun env ⟨.whole, true, true, true, olc, pc⟩ threads cpu windows ctxSet assign (some cfg) (some d) strats = .done obs) :
+    obs = spec cfg d strats :=
+  C19_manager_isolated_of_safe env _ threads cpu windows ctxSet assign cfg d strats (Or.inl rfl)
+    ⟨Or.inl rfl, Or.inl ⟨rfl, rfl⟩, Or.inl rfl, Or.inl hp⟩ obs h
+
+/-- before the cells were copied in `_start`, isolation of the order books rested on `get_new_order_list` **and** on
+    strategies not writing into the nested lists themselves (the hypothesis that was violated, see
+    `C19_fails_when_nested_cells_are_shared`) -/
+theorem C19_order_list_copy_partial (env : Env M P) (threads cpu : Nat) (windows ctxSet : Bool) (assign : Nat → Nat) (cfg : M)
+    (d : Data C V N P) (strats : List (Strat M C V N P O)) (hc : CellsIntact strats) (obs : List O)
+    (h : managerRun env ⟨.whole, true, true, false, true, .always⟩ threads cpu windows ctxSet assign (some cfg) (some d) strats = .done obs) :
+    obs = spec cfg d strats :=
+  C19_manager_isolated_of_safe env _ threads cpu windows ctxSet assign cfg d strats (Or.inl rfl)
+    ⟨Or.inl rfl, Or.inl ⟨rfl, rfl⟩, Or.inr ⟨hc, Or.inl rfl⟩, Or.inl rfl⟩ obs h
+
+/-! ### the defects that were repaired and the seeded regressions, on their witnesses
+
+Projection: a strategy observes what it *found*: (positions on market 1, on market 2, references between markets
+intact), and per data layer a counter (columns added, values overwritten, depth missing from the order books, price
+cells overwritten + "the `USD` column is there"). -/
+
+def Manager.eff0 : Effect := ⟨0, 0, 0, 0, 0, 0, 0⟩
+def Manager.pd0 : PData := ⟨0, 0, 0, (0, false)⟩
+abbrev Manager.PStrat := Strat PM Nat Nat Nat (Nat × Bool) (PM × PData)
 
 /-- with the configuration's market objects attached directly (the code before the first repair), an idle strategy
-    run after one that opens a position observes that position -/
+    run after one that opens a position finds that position -/
 theorem C19_fails_when_markets_are_shared :
-    ¬ (∀ (strats : List (Strat (Nat × Nat) Nat (Nat × Nat × Nat))),
-        runSeq ⟨false, true, true⟩ (0, 0) 0 strats = spec (0, 0) 0 strats) := by
+    ¬ (∀ (strats : List PStrat),
+        runSeq (probeEnv false false) ⟨.none, true, true, true, true, .always⟩ (0, 0, true) pd0 strats = spec (0, 0, true) pd0 strats) := by
   intro h
-  have := h [countStrat 1 0 0, countStrat 0 0 0]
+  have := h [probeStrat { eff0 with posA := 1 }, probeStrat eff0]
   revert this
   decide
+
+/-- with every market copied on its own (the code before the repair of this round), a market that refers to another
+    configured market — a SqueethMarket and its oSQTH pool — is attached to a private copy of it: already a single
+    strategy differs from the plain Actuator run; without such references the per-market copy is enough -/
+theorem C19_fails_when_markets_are_copied_one_by_one :
+    (¬ (∀ (strats : List PStrat),
+        runSeq (probeEnv false true) ⟨.each, true, true, true, true, .always⟩ (0, 0, true) pd0 strats = spec (0, 0, true) pd0 strats)) ∧
+    (∀ (strats : List PStrat) (cfg : PM) (d : PData),
+        runSeq (probeEnv false false) ⟨.each, true, true, true, true, .always⟩ cfg d strats = spec cfg d strats) := by
+  constructor
+  · intro h
+    have := h [probeStrat eff0]
+    revert this
+    decide
+  · intro strats cfg d
+    refine C19_sequential_isolated _ _ cfg d strats (Or.inr (Or.inl ⟨rfl, ?_⟩)) ⟨Or.inl rfl, Or.inl ⟨rfl, rfl⟩, Or.inl rfl, Or.inl rfl⟩
+    obtain ⟨a, b, c⟩ := cfg
+    simp [probeEnv]
 
 /-- with the shared data frame assigned itself (the code before the second repair), a strategy run after one that adds
     an indicator column sees that column — on the sequential path, and on the forked path when the scheduler gives both
     tasks to the same worker -/
 theorem C19_fails_when_data_frame_is_shared :
-    (¬ (∀ (strats : List (Strat (Nat × Nat) Nat (Nat × Nat × Nat))),
-        runSeq ⟨true, false, true⟩ (0, 0) 0 strats = spec (0, 0) 0 strats)) ∧
-    (¬ (∀ (assign : Nat → Nat) (strats : List (Strat (Nat × Nat) Nat (Nat × Nat × Nat))),
-        runPool ⟨true, false, true⟩ (0, 0) assign (fun _ => 0) 0 strats = spec (0, 0) 0 strats)) := by
+    (¬ (∀ (strats : List PStrat),
+        runSeq (probeEnv false false) ⟨.whole, false, true, true, true, .always⟩ (0, 0, true) pd0 strats = spec (0, 0, true) pd0 strats)) ∧
+    (¬ (∀ (assign : Nat → Nat) (strats : List PStrat),
+        runPool (probeEnv false false) ⟨.whole, false, true, true, true, .always⟩ (0, 0, true) assign (fun _ => pd0) 0 strats
+          = spec (0, 0, true) pd0 strats)) := by
   constructor
   · intro h
-    have := h [countStrat 0 0 1, countStrat 0 0 0]
+    have := h [probeStrat { eff0 with cols := 1 }, probeStrat eff0]
     revert this
     decide
   · intro h
-    have := h (fun _ => 0) [countStrat 0 0 1, countStrat 0 0 0]
+    have := h (fun _ => 0) [probeStrat { eff0 with cols := 1 }, probeStrat eff0]
     revert this
     decide
 
 /-- without copy-on-write the view does not protect values overwritten in place: the unrestricted statement fails -/
 theorem C19_fails_without_cow_when_data_is_overwritten :
-    ¬ (∀ (strats : List (Strat (Nat × Nat) Nat (Nat × Nat × Nat))) (obs : List (Nat × Nat × Nat)),
-        managerRun (Mode.current false) 1 1 false false id (some (0, 0)) (some 0) strats = .done obs →
-        obs = spec (0, 0) 0 strats) := by
+    ¬ (∀ (strats : List PStrat) (obs : List (PM × PData)),
+        managerRun (probeEnv false false) (Mode.current false) 1 1 false false id (some (0, 0, true)) (some pd0) strats = .done obs →
+        obs = spec (0, 0, true) pd0 strats) := by
   intro h
-  have := h [countStrat 0 0 1, countStrat 0 0 0] _ rfl
+  have := h [probeStrat { eff0 with vals := 1 }, probeStrat eff0] _ rfl
   revert this
   decide
 
+/-- with the frame copied but not the objects nested in its cells (the code before the repair of this round): a
+    strategy that writes into an order-book list — `get_new_order_list` copying or not — takes that depth away from the
+    next strategy, on the sequential path and on the forked path when both tasks run on the same worker -/
+theorem C19_fails_when_nested_cells_are_shared :
+    (¬ (∀ (strats : List PStrat),
+        runSeq (probeEnv false false) ⟨.whole, true, true, false, true, .always⟩ (0, 0, true) pd0 strats = spec (0, 0, true) pd0 strats)) ∧
+    (¬ (∀ (assign : Nat → Nat) (strats : List PStrat),
+        runPool (probeEnv false false) ⟨.whole, true, true, false, true, .always⟩ (0, 0, true) assign (fun _ => pd0) 0 strats
+          = spec (0, 0, true) pd0 strats)) := by
+  constructor
+  · intro h
+    have := h [probeStrat { eff0 with cellsUser := 1 }, probeStrat eff0]
+    revert this
+    decide
+  · intro h
+    have := h (fun _ => 0) [probeStrat { eff0 with cellsUser := 1 }, probeStrat eff0]
+    revert this
+    decide
+
+/-- seeded regression (a): `get_new_order_list` decrementing the lists it is given (`list(old)` instead of
+    `copy.deepcopy(old)`) while the cells are shared: two strategies that only *trade* the same option — the second
+    finds the depth the first one bought gone.  (With the cells copied by `_start` the same change is harmless:
+    `C19_cells_copy_covers_order_lists`.) -/
+theorem C19_fails_when_order_list_is_not_deep_copied :
+    ¬ (∀ (strats : List PStrat), CellsIntact strats →
+        runSeq (probeEnv false false) ⟨.whole, true, true, false, false, .always⟩ (0, 0, true) pd0 strats = spec (0, 0, true) pd0 strats) := by
+  intro h
+  have := h [probeStrat { eff0 with cellsFill := 5 }, probeStrat { eff0 with cellsFill := 3 }] (by
+    intro s hs m d
+    simp only [List.mem_cons, List.not_mem_nil, or_false] at hs
+    rcases hs with rfl | rfl <;> rfl)
+  revert this
+  decide
+
+/-- seeded regression (b): `Actuator.set_price` adopting the caller's frame when its cells are Decimal already: a
+    strategy that writes into `self.prices` changes the next strategy's prices; with a float frame the conversion still
+    makes a private frame and nothing leaks -/
+theorem C19_fails_when_price_frame_is_adopted :
+    (¬ (∀ (strats : List PStrat),
+        runSeq (probeEnv true false) ⟨.whole, true, true, true, true, .unlessDecimal⟩ (0, 0, true) pd0 strats = spec (0, 0, true) pd0 strats)) ∧
+    (∀ (strats : List PStrat),
+        runSeq (probeEnv false false) ⟨.whole, true, true, true, true, .unlessDecimal⟩ (0, 0, true) pd0 strats = spec (0, 0, true) pd0 strats) := by
+  constructor
+  · intro h
+    have := h [probeStrat { eff0 with prices := 1 }, probeStrat eff0]
+    revert this
+    decide
+  · intro strats
+    exact C19_sequential_isolated _ _ _ _ strats (Or.inl rfl) ⟨Or.inl rfl, Or.inl ⟨rfl, rfl⟩, Or.inl rfl, Or.inl rfl⟩
+
 /-! ### non-vacuity -/
-example : DataIntact [countStrat 1 0 0, countStrat 0 0 0, countStrat 0 1 0] := by
+example : ValsIntact [probeStrat { eff0 with posA := 1, cols := 1, cellsUser := 2, prices := 1 }, probeStrat eff0] := by
   intro s hs m d
   simp only [List.mem_cons, List.not_mem_nil, or_false] at hs
-  rcases hs with rfl | rfl | rfl <;> rfl
-example : runSeq (Mode.current true) ((0, 0) : Nat × Nat) 0 [countStrat 1 0 1, countStrat 0 0 0, countStrat 0 1 0]
-    = [(1, 0, 1), (0, 0, 0), (0, 1, 0)] := by decide
-example : runSeq (Mode.original true) ((0, 0) : Nat × Nat) 0 [countStrat 1 0 1, countStrat 0 0 0, countStrat 0 1 0]
-    = [(1, 0, 1), (1, 0, 1), (1, 1, 1)] := by decide
-example : runPool (Mode.original true) ((0, 0) : Nat × Nat) (fun i => i % 2) (fun _ => 0) 0
-    [countStrat 1 0 1, countStrat 0 0 0, countStrat 0 1 0] = [(1, 0, 1), (0, 0, 0), (0, 1, 1)] := by decide
+  rcases hs with rfl | rfl <;> rfl
+example : MarketsSafe (probeEnv true true) (Mode.current true) ((0, 0, true) : PM) [probeStrat eff0] := Or.inl (by decide)
+example : DataSafe (probeEnv true true) (Mode.current true) pd0 [probeStrat { eff0 with vals := 3, cellsUser := 1, prices := 2 }] :=
+  ⟨Or.inl (by decide), Or.inl (by decide), Or.inl (by decide), Or.inl (by decide)⟩
+/-- the current code: everybody finds the pristine objects, whatever the others wrote -/
+example : runSeq (probeEnv true true) (Mode.current true) (0, 0, true) pd0
+    [probeStrat ⟨1, 0, 1, 1, 2, 5, 1⟩, probeStrat eff0, probeStrat ⟨0, 1, 0, 0, 0, 3, 0⟩]
+    = [((0, 0, true), pd0), ((0, 0, true), pd0), ((0, 0, true), pd0)] := by decide
+/-- the original code: the second and third strategy find what the earlier ones left -/
+example : runSeq (probeEnv false false) (Mode.original true) (0, 0, true) pd0
+    [probeStrat ⟨1, 0, 1, 1, 2, 5, 1⟩, probeStrat eff0, probeStrat ⟨0, 1, 0, 0, 0, 3, 0⟩]
+    = [((0, 0, true), pd0), ((1, 0, true), ⟨1, 1, 2, (0, false)⟩), ((1, 0, true), ⟨1, 1, 2, (0, false)⟩)] := by decide
+example : runPool (probeEnv false false) (Mode.original true) (0, 0, true) (fun i => i % 2) (fun _ => pd0) 0
+    [probeStrat ⟨1, 0, 1, 1, 2, 5, 1⟩, probeStrat eff0, probeStrat ⟨0, 1, 0, 0, 0, 3, 0⟩]
+    = [((0, 0, true), pd0), ((0, 0, true), pd0), ((0, 0, true), ⟨1, 1, 2, (0, false)⟩)] := by decide
 
 end Demeter
